@@ -2,6 +2,8 @@
 mod common;
 mod c17;
 mod c18;
+mod c19;
+mod c20;
 
 fn main() {
     common::install_panic_hook();
@@ -9,6 +11,8 @@ fn main() {
     match args.cmd.as_str() {
         "c17" => c17::run(&args),
         "c18" => c18::run(&args),
+        "c19" => c19::run(&args),
+        "c20" => c20::run(&args),
         other => {
             eprintln!("unknown command {:?}", other);
             std::process::exit(3);
